@@ -28,6 +28,7 @@ func (f *hashMap) Init(pgids common.Pgids) {
 	f.backwardMap = make(map[common.Pgid]uint64)
 
 	if len(pgids) == 0 {
+		f.reindex()
 		return
 	}
 
